@@ -26,6 +26,9 @@ EPS_DEFAULT = 1e-16
 
 
 def vec(draw, n, k, nonneg, integral):
+    if n > 400:     # long vectors: a drawn 37-value pattern, tiled with an index-dependent factor
+        pat = vec(draw, 37, k, nonneg, integral)
+        return [pat[i % 37] * (1 + (i % 5)) for i in range(n)]
     if integral:
         base = st.integers(0 if nonneg else -50, 50).map(float)
     else:
@@ -38,7 +41,8 @@ def vec(draw, n, k, nonneg, integral):
 
 @st.composite
 def metric_cases(draw, tier):
-    n = draw(st.one_of(st.integers(1, 8), st.integers(1, 40 if tier == 'quick' else 300)))
+    n = draw(st.one_of(st.integers(1, 8), st.integers(1, 8), st.integers(1, 40 if tier == 'quick' else 300),
+                       st.integers(1, 40 if tier == 'quick' else 300), st.integers(4000, 10000)))
     integral = draw(st.integers(0, 3)) == 0
     k = 0 if integral else draw(st.sampled_from([0, 0, 0, -9, -4, 3, 6, 12]))
     y = vec(draw, n, k, True, integral)
@@ -50,7 +54,7 @@ def metric_cases(draw, tier):
     elif rel == 'partial':
         yh = list(y)
         if n:
-            yh[draw(st.integers(0, n - 1))] += 10.0 ** k
+            yh[draw(st.sampled_from([0, n - 1, n // 2, max(0, n - 2)]))] += 10.0 ** k
     else:
         yh = vec(draw, n, k, True, integral)
     return {'kind': 'metric', 'y': y, 'yh': yh, 'rel': rel, 'k': k, 'integral': integral,
@@ -184,7 +188,7 @@ def wrapper_cases(draw, tier):
     c = draw(S.curves(2, 30 if tier == 'quick' else 120))
     coef_mode = draw(st.sampled_from(['endpoint', 'free', 'flat']))
     return {'kind': 'wrapper', 'family': c['family'], 'pts': c['pts'], 'coef_mode': coef_mode,
-            'b': draw(st.floats(-10, 10)), 'm': draw(st.floats(-3, 3))}
+            'b': draw(st.floats(-10, 10)), 'm': draw(st.floats(-3, 3)), 'xorder': draw(st.sampled_from(['asc', 'asc', 'desc', 'swap']))}
 
 
 def pearson_r2(xs, ys):
@@ -211,6 +215,16 @@ def oracle_wrapper(case, rec):
     n = len(p)
     x, y = p[:, 0], p[:, 1]
     rec.tag('family:' + case['family'], 'coef:' + case['coef_mode'])
+    # the endpoint fit is defined for any two vectors whose first and last abscissa differ: the
+    # library itself calls linear_fit(y, x) on decreasing data (linear_hv_residuals)
+    xo = case.get('xorder', 'asc')
+    if xo == 'desc':
+        p = p[::-1].copy()
+        x, y = p[:, 0], p[:, 1]
+    elif xo == 'swap' and y[0] != y[-1]:
+        p = np.column_stack((y, x))
+        x, y = p[:, 0], p[:, 1]
+    rec.tag('xorder:' + xo)
     fit = rec.call(8, lf.linear_fit_points, p, _site='lf.linear_fit_points')
     fit2 = rec.call(8, lf.linear_fit, x, y, _site='lf.linear_fit')
     if fit is FAILED or fit2 is FAILED:
@@ -221,7 +235,9 @@ def oracle_wrapper(case, rec):
     # the endpoint fit passes through the first and the last point
     for i in (0, n - 1):
         got = b + mm * x[i]
-        tol = 1e-9 * (abs(y[i]) + abs(mm * x[i]) + abs(b)) + 1e-300
+        # b is computed from the first point, the slope from both: the rounding error at either end
+        # point is governed by the magnitudes at BOTH ends
+        tol = 1e-9 * (abs(y[0]) + abs(y[-1]) + abs(mm) * (abs(x[0]) + abs(x[-1])) + abs(b)) + 1e-300
         rec.check(abs(got - y[i]) <= tol, 'linear_fit:not-through-end-point', 'i=%d line=%r y=%r (b=%r m=%r)' % (i, got, float(y[i]), b, mm))
     if case['coef_mode'] == 'endpoint':
         coef = (b, mm)
